@@ -34,6 +34,7 @@ type Res struct {
 	Peak   uint64 // peak heap growth during the case (sampled)
 	Alloc  uint64 // bytes allocated during the case
 	Detail string // ok: result info; err: message; panic: class|site|loc|msg; crash: class|site|loc|msg
+	CPUms  int64  // CPU time the child spent on this case (isolation mode only, else 0)
 	Over   string // "site|loc" where the decoder was when the heap watchdog first saw the budget exceeded
 }
 
@@ -242,10 +243,12 @@ func runChunk(cfg runCfg, cases []Case, res []Res, lo, hi int) {
 					det, over = det[:k], det[k+6:]
 				}
 				res[i] = Res{Status: f[1], Ms: ms, Peak: pk, Alloc: al, Detail: det, Over: over}
-				i++
 				if cfg.Workers == 1 {
-					cpuBase = max(0, procCPUms(ch.cmd.Process.Pid))
+					now := max(0, procCPUms(ch.cmd.Process.Pid))
+					res[i].CPUms = now - cpuBase
+					cpuBase = now
 				}
+				i++
 			case <-timer.C:
 				res[i] = Res{Status: "timeout", Ms: cfg.Timeout.Milliseconds(), Detail: fmt.Sprintf("no result within the watchdog cpu=%d", procCPUms(ch.cmd.Process.Pid)-cpuBase)}
 				i++
